@@ -79,7 +79,7 @@ def run_drivers(repo, verif, names, outdir, timeout=1500):
 # which driver can search counterexamples for which unit
 UNIT_DRIVERS = {
     "compaction_retention": ["iter::retention_enum"],
-    "compaction_accumulate": ["iter::retention_enum"],
+    "compaction_accumulate": ["iter::advance_enum"],
     "pipeline_commit": ["transaction::conflict_enum"],
     "txn_commit": ["transaction::conflict_enum"],
     "write_set": ["transaction::writeset_enum"],
